@@ -176,6 +176,30 @@ def corrupt_cache(p, cls):
         out = gzip.compress(json.dumps(j).encode())
     elif kind == 'empty':
         out = b''
+    elif kind in ('no_version', 'no_key'):
+        # a member the format requires is missing altogether (not: present with another value)
+        j = json.loads(gzip.decompress(raw))
+        j.pop('cacheFileVersion' if kind == 'no_version' else param, None)
+        out = gzip.compress(json.dumps(j).encode())
+    elif kind == 'badutf8':
+        # valid gzip whose text is not valid UTF-8: one byte inside a JSON string becomes 0xff.  Without a parameter the
+        # string is the build name; with one it is the n-th string VALUE that steers nothing (an argument, a return value,
+        # a created directory) - the document is a well-formed cache file except for that byte
+        import re
+        text = gzip.decompress(raw)
+        i = text.find(b'"buildName"')
+        i = text.find(b'"', text.find(b':', i)) + 1 if i >= 0 else -1
+        if param:
+            spots = []
+            for m in re.finditer(rb'"((?:[^"\\]|\\.)+)"\s*([:,\]}])', text):
+                before = text[max(0, m.start() - 20):m.start()]
+                if m.group(2) == b':' or re.search(rb'"(buildName|software|type|fileComparison|filename|funcName)"\s*:\s*$', before):
+                    continue
+                if text[m.start() + 1:m.start() + 2] != b'\\':
+                    spots.append(m.start() + 1)
+            if spots:
+                i = spots[n % len(spots)]
+        out = gzip.compress(text[:i] + b'\xff' + text[i + 1:]) if i > 0 else gzip.compress(b'"\xff"')
     elif kind in ('field', 'opfield'):
         # valid gzip, valid JSON, right software and version - but one field has a value of the wrong type
         name, _, val = param.partition('=')
